@@ -51,6 +51,10 @@ const EMI_F: Profile = Profile {
     name: "EMI",
     faults: true,
 };
+const INTEG: Profile = Profile {
+    name: "INTEG",
+    faults: false,
+};
 const AUTH: Profile = Profile {
     name: "AUTH",
     faults: false,
@@ -77,10 +81,10 @@ pub fn plan(id: &str) -> Option<Plan> {
         "C16" => Plan {
             id: "C16",
             level: "exploration",
-            profiles: vec![MKT, MKT_F, ADM],
-            quick_runs: 1500,
-            thorough_runs: 30_000,
-            rule: "seeded runs of the market profile; one evaluation = one user account changed by a successful instruction, all structural invariants judged; distinct = instruction kind x #active slots x tag classes x account flags",
+            profiles: vec![MKT, MKT_F, ADM, INTEG],
+            quick_runs: 2000,
+            thorough_runs: 40_000,
+            rule: "seeded runs of the market, admin and integration (solend_deposit against a stub venue) profiles; one evaluation = one user account changed by a successful instruction, all structural invariants judged; distinct = instruction kind x #active slots x tag classes x account flags",
         },
         "C04" => Plan {
             id: "C04",
@@ -220,6 +224,6 @@ pub const ASSUMPTIONS: &[&str] = &[
     "native x86-64 build of the program (same Rust source, overflow-checks on) instead of SBF; compute-unit, heap and stack limits are not modelled",
     "REAL code: marginfi entry/dispatch/constraints/handlers, SPL-Token 7 and Token-2022 6 processors, Pyth receiver SDK and Switchboard on-demand parsers",
     "STUB: account store with atomic commit/rollback, post-instruction runtime rules, CPI privilege rules, System program (CreateAccount/Transfer/Allocate/Assign), Clock/Rent sysvars, Instructions sysvar account",
-    "venue programs (Kamino/Drift/Solend) are not executed; integration-position clauses are vacuous",
+    "venue programs: Kamino and Drift are not executed; Solend is a STUB (deposit book-keeping on reserve/obligation bytes only, no token movement) behind the REAL marginfi solend_deposit, used by the INTEG profile of C16 only; positions of the other venue kinds there are byte fixtures; no integration withdraw is executed",
     "sampled exploration: a clean batch is evidence, not proof",
 ];
